@@ -32,7 +32,9 @@ PROPS = [None, "Kepler", "J2", "Sgp4", "Sgp4Beta", "NonePropagator", "Kepler()",
          "KeplerNum:60:rk4:0.001", "KeplerNum:30:dopri54:1e-05", "KeplerNum:10:euler:0.001", "KeplerNum:120:rkf54:0.01"]
 META_KEYS = ["name", "cospar_id", "mass", "tags", "cfg", "note", "k1"]
 # free metadata whose key differs minimally from a parameter name, an alias or a reserved word: it is metadata
-NEAR_KEYS = ["X", "Vx", "omega_", "Raan", "OMEGA", "nu2", "E_", "theta0", "form_", "frame2", "date_", "aol_", "A", "I"]
+NEAR_KEYS = ["X", "Vx", "omega_", "Raan", "OMEGA", "nu2", "E_", "theta0", "form_", "frame2", "date_", "aol_", "A", "I",
+             # ... or from the name of an internal entry (propagator, cov, maneuvers, event): short words contained in them
+             "prop", "op", "at", "to", "orb", "man", "co", "eve", "propagator_", "covar"]
 BAD_FORMS = ["foo", "keplerian_", "cartesien", "kepler", "TLE2", "mean circular"]
 BAD_FRAMES = ["XYZ", "EME2001", "itrf", "J2000", "QSW"]
 
